@@ -340,7 +340,7 @@ func (b *setBox[T]) CheckState() *Viol {
 				return viol(tag("C04"), "mismatch", "Contains(%v...) = false although every argument is a member of %v", rep, b.ref)
 			}
 			rep[k/2] = b.sys.Absent
-			if b.a.contains(argSlice(rep)...) {
+			if b.find(b.sys.Absent) < 0 && b.a.contains(argSlice(rep)...) {
 				return viol(tag("C04"), "mismatch", "Contains(%v...) = true although %v is not a member of %v", rep, b.sys.Absent, b.ref)
 			}
 		}
